@@ -8,6 +8,7 @@ import (
 	"os"
 	"sort"
 	"strings"
+	"unicode/utf8"
 
 	"github.com/hashicorp/hcl/v2"
 	"github.com/hashicorp/hcl/v2/hclsyntax"
@@ -163,6 +164,10 @@ func (x *Exec) apply(ev *Event) {
 			if n > len(f.Full.Text) {
 				n = len(f.Full.Text)
 			}
+			// an editor buffer is valid UTF-8: never cut inside a character
+			for n > 0 && n < len(f.Full.Text) && !utf8.RuneStart(f.Full.Text[n]) {
+				n--
+			}
 			text = f.Full.Text[:n]
 		case "full":
 			if f.Full == nil {
@@ -176,6 +181,13 @@ func (x *Exec) apply(ev *Event) {
 			}
 			if off+del > len(f.Text) {
 				del = len(f.Text) - off
+			}
+			for off > 0 && off < len(f.Text) && !utf8.RuneStart(f.Text[off]) {
+				off--
+				del++
+			}
+			for off+del < len(f.Text) && !utf8.RuneStart(f.Text[off+del]) {
+				del++
 			}
 			text = append(append(append([]byte(nil), f.Text[:off]...), ev.Ins...), f.Text[off+del:]...)
 		case "translate":
